@@ -86,10 +86,13 @@ impl TraitCodegen<'_> {
         let where_clause = trait_generics.trait_where_clause();
 
         let trait_sub_attributes = self.sub_attributes.iter().filter(|attr| {
-            matches!(
-                attr,
-                SubAttribute::AsyncTrait(_) | SubAttribute::Automock(_)
-            )
+            // An entraited trait is the user's own trait and keeps all of its attributes.
+            // Traits generated from functions only receive the attributes entrait re-applies.
+            matches!(self.trait_indirection, TraitIndirection::Trait)
+                || matches!(
+                    attr,
+                    SubAttribute::AsyncTrait(_) | SubAttribute::Automock(_)
+                )
         });
 
         Ok(quote_spanned! { span=>
